@@ -178,6 +178,108 @@ def run(ctx):
         if ok2:
             raise vlib.InfraError("binding is vacuous: corrupted detector trace accepted")
         ctx.stage("C", corrupted_trace_rejected_at=r2)
+    # ---- H: lifetimes over time.  TLC-simulated histories (validate, DUPLICATE delivery, activate, time passing) over two registrations
+    # are replayed on the real station; every published message is applied by the real detector logic under the logical clock at which it
+    # was sent; the station's own view of each registration (tracked / used) and the detector's session map after every step must be the
+    # specification's - whose invariant DetectorOutlivesStation is evaluated on every state of the validated trace.
+    rd = ctx.tlc(sdir, "MC_Detector.tla", "MC_Detector_duprestart.cfg", timeout=300, count=False)
+    if rd["inv"] != "DetectorOutlivesStation":
+        raise vlib.InfraError("the instance where a duplicate restarts the station's clock should violate DetectorOutlivesStation, got %s" % rd["inv"])
+    thorough = ctx.tier == "thorough"
+    gh = ctx.tlc(sdir, "Gen_Detector.tla", "Gen_Detector.cfg", timeout=600, workers=2, count=False, simulate="num=%d" % (1500 if thorough else 150),
+                 depth=10, deadlock=False, extra=["-seed", str(ctx.seed)])
+    hin = os.path.join(ctx.scratch, "life_beh.ndjson")
+    seen = set()
+    with open(hin, "w") as fo:
+        for line in open(gh["beh_file"]):
+            if line not in seen:
+                seen.add(line)
+                fo.write(line)
+    hout = os.path.join(ctx.scratch, "life_out.ndjson")
+    resh = ctx.go_test(PKG, FILES, "lib", "^TestVerifDetectorLifetime$", env={"VERIF_IN": hin, "VERIF_OUT": hout}, timeout=900)
+    hrows = ctx.read_results(hout)
+    if not any(x.get("kind") == "summary" for x in hrows):
+        raise vlib.InfraError("lifetime driver did not finish:\n" + resh["out"][-3000:])
+    hists = [x for x in hrows if x.get("kind") == "history"]
+    if len(hists) < 30:
+        raise vlib.InfraError("too few lifetime histories (%d)" % len(hists))
+    canon_regs = None
+    big = []
+    ndup = ntick = 0
+    for h in hists:
+        evs = h["events"]
+        ri = {r["id"]: r for r in evs[0]["regs"]}
+        ph = {ri[i]["phantom"]: "P" + i for i in ri}           # canonical phantom names: all histories share the two abstract registrations
+        regs_abs = [{"id": i, "fam": "v6" if ri[i]["v6"] else "v4", "phantom": "P" + i, "registrant": ri[i]["registrant_class"],
+                     "client": ri[i]["registrant"], "proto": {"Tcp": "tcp", "Udp": "udp"}.get(ri[i]["proto"], "unk"), "port": ri[i]["port"]} for i in sorted(ri)]
+        canon_regs = canon_regs or regs_abs
+        if regs_abs != canon_regs:
+            raise vlib.InfraError("lifetime histories do not share their registrations: %s vs %s" % (regs_abs, canon_regs))
+        lines, kinds = [], []
+        for e in evs[1:]:
+            if e["a"] == "Publish":
+                lines.append("@%d %s" % (e["clock"], e["hex"]))
+                kinds.append(e)
+            elif e["a"] == "Tick":
+                lines.append("@%d" % e["clock"])
+                kinds.append(e)
+        s2dh = os.path.join(rdir, "life.hex")
+        open(s2dh, "w").write("".join(l + "\n" for l in lines))
+        dr = subprocess.run(["timeout", "60", os.path.join(rdir, "detector")], env=dict(os.environ, VERIF_S2D_FILE=s2dh, VERIF_LOGICAL_CLOCK="1"),
+                            stdout=subprocess.PIPE, stderr=subprocess.PIPE, text=True)
+        dd = [json.loads(l) for l in dr.stdout.splitlines() if l.startswith("{")]
+        if dr.returncode != 0 or len(dd) != len(lines):
+            raise vlib.InfraError("detector harness failed on a lifetime history (rc %s, %d dumps for %d lines): %s" % (dr.returncode, len(dd), len(lines), dr.stderr[-1500:]))
+        di = 0
+        big.append({"a": "Reset"})
+
+        def detstate(clock, d):
+            sess = []
+            for sx in d["sessions"]:
+                tg = parse_tag(sx["tag"])
+                tg["phantom"] = ph.get(tg["phantom"], tg["phantom"])
+                sess.append({"tag": tg, "exp": clock + sx["remaining_ns"] // 10**9})
+            return {"a": "DetState", "sessions": sess}
+        for e in evs[1:]:
+            if e["a"] == "Publish":
+                if e["op"] == "unexpected":
+                    ctx.violation("lifetime:duplicate-published", "a duplicate delivery of a tracked registration made the station publish a message", e)
+                    continue
+                am = abstract_msg(pb_decode(bytes.fromhex(e["hex"])))
+                if am.get("tag"):
+                    am["tag"]["phantom"] = ph.get(am["tag"]["phantom"], am["tag"]["phantom"])
+                big.append({"a": "Publish", "id": e["id"], "msg": am})
+                big.append(detstate(e["clock"], dd[di]))
+                di += 1
+            elif e["a"] == "Tick":
+                ntick += 1
+                big.append({"a": "Tick", "d": e["d"]})
+                big.append(detstate(e["clock"], dd[di]))
+                di += 1
+            elif e["a"] == "Dup":
+                ndup += 1
+                big.append({"a": "Dup", "id": e["id"]})
+            elif e["a"] == "StState":
+                big.append({"a": "StState", "tracked": e["tracked"], "used": e["used"]})
+            elif e["a"] == "PublishCount":
+                ctx.violation("lifetime:publish-count:%s" % e["op"], "the station published %d messages for one %s" % (e["n"], e["op"]), e)
+    htrace = [{"a": "Regs", "regs": canon_regs}] + big
+    okh, reachedh, totalh, trh = ctx.validate_traces(sdir, "Trace_Detector.tla", "Trace_Detector.cfg", [htrace], timeout=900, reset=False)
+    ctx.log("H: %d lifetime histories (%d duplicate deliveries, %d time steps), %d events; accepted=%s reached=%d/%d"
+            % (len(hists), ndup, ntick, len(htrace), okh, reachedh, totalh))
+    if ndup < 20 or ntick < 50:
+        raise vlib.InfraError("lifetime histories are vacuous (%d duplicates, %d time steps)" % (ndup, ntick))
+    if not okh:
+        ev = htrace[reachedh] if reachedh < len(htrace) else None
+        prev = htrace[max(0, reachedh - 6):reachedh]
+        kind = "invariant:%s" % trh["inv"] if trh["inv"] else "%s" % (ev or {}).get("a")
+        what = {"StState": "the REAL station's view of its registrations (tracked / used) is not the specification's: the station and the detector "
+                           "no longer agree on how long the session lives",
+                "DetState": "the real detector's session map is not the specification's"}.get((ev or {}).get("a"), "not a behaviour of Detector.tla")
+        ctx.violation("lifetime:%s" % kind, "lifetime history: %s at event %d: %s (previous: %s)" % (what, reachedh, json.dumps(ev)[:300], json.dumps(prev)[:500]),
+                      {"event": ev, "previous": prev})
+    ctx.stage("H", histories=len(hists), duplicate_deliveries=ndup, time_steps=ntick, events=len(htrace), accepted=okh,
+              nonvacuity="DupMode=restart violates DetectorOutlivesStation")
     ctx.cov["traces_validated_against_impl"] = 1
     shapes = {(x["reg"]["transport"], x["reg"]["v6"], x["reg"]["registrant_class"], x["op"], x["reg"]["port"] != 443) for x in pubs if x["op"] != "Clear"}
     ctx.cov["evaluations"] = len(pubs)
@@ -188,4 +290,5 @@ def run(ctx):
                         "protobuf, redis) and stub util/flow_tracker/signalling modules (cargo cannot fetch the real dependencies offline); "
                         "packet-path code (flow_tracker.rs, process_packet.rs) is not exercised",
                         "Redis is replaced by an in-process RESP server; the station's client is pointed at it in-package",
-                        "remaining lifetimes are compared with 3% tolerance; detector expiry (drop_stale_sessions) is not driven"]
+                        "stage C compares remaining lifetimes with 3% tolerance (wall clock); stage H drives time: the station by back-dating its expiry records, the detector "
+                        "by a logical clock in the harness (drop_stale_sessions runs after every step)"]
